@@ -58,6 +58,7 @@ def main(argv=None):
     bind_repo()
     from mc import core
 
+    os.environ["VERIF_PROPERTY"] = what
     if args.jobs:
         core.NPROC = args.jobs
 
@@ -78,8 +79,15 @@ def main(argv=None):
     if args.replay:
         with open(args.replay) as f:
             doc = json.load(f)
-        res = mod.replay(doc["case"])
-        res2 = mod.replay(doc["case"])
+        def replay_once():
+            try:
+                with core.case_watchdog(core.CASE_TIMEOUT):
+                    return mod.replay(doc["case"])
+            except core.CaseTimeout:
+                return [("%s/case-does-not-terminate" % what, "the case did not finish within %d s" % core.CASE_TIMEOUT)]
+
+        res = replay_once()
+        res2 = replay_once()
         if [r[0] for r in res] != [r[0] for r in res2]:
             print("HARNESS-ERROR replay of %s is not deterministic: %r vs %r" % (args.replay, res, res2))
             return 2
